@@ -23,6 +23,7 @@ import (
 	"github.com/bytom/bytom/protocol/bc"
 	"github.com/bytom/bytom/protocol/bc/types"
 	"github.com/bytom/bytom/protocol/validation"
+	"github.com/bytom/bytom/protocol/vm"
 	"github.com/bytom/bytom/protocol/vm/vmutil"
 )
 
@@ -772,6 +773,231 @@ func c27chain(c *Ctx, s *c27st, seed int64) {
 	c.Count(fmt.Sprintf("chain/ok/%d-merge-txs", len(tpls)))
 }
 
+// ---------------------------------------------------------------------------------------
+// m-of-n accounts whose keys are held by DIFFERENT signers: every subset of m key holders, in
+// every signing order, one txbuilder.Sign call per holder with a sign function that knows only
+// that holder's key. Direct oracle only:
+//   fewer than m holders signed  => SignProgress false
+//   m holders signed             => SignProgress true, validation.ValidateTx passes, recipient
+//                                   paid exactly, fee as requested, the input witness carries
+//                                   exactly m signatures
+//   SignProgress true            => ValidateTx passes
+// kinds: spend (address UTXOs: RawTxSigWitness), veto (vote UTXOs), legacy (UTXO records without
+// address: SignatureWitness + P2SP multisig program); 1 and 3 inputs on one address.
+
+func c27perms(a []int) [][]int {
+	if len(a) <= 1 {
+		return [][]int{append([]int{}, a...)}
+	}
+	var out [][]int
+	for i := range a {
+		rest := append(append([]int{}, a[:i]...), a[i+1:]...)
+		for _, p := range c27perms(rest) {
+			out = append(out, append([]int{a[i]}, p...))
+		}
+	}
+	return out
+}
+
+func c27subsets(n, m int) [][]int {
+	var out [][]int
+	var rec func(start int, cur []int)
+	rec = func(start int, cur []int) {
+		if len(cur) == m {
+			out = append(out, append([]int{}, cur...))
+			return
+		}
+		for i := start; i < n; i++ {
+			rec(i+1, append(cur, i))
+		}
+	}
+	rec(0, nil)
+	return out
+}
+
+func c27multisig(c *Ctx) {
+	consensus.ActiveNetParams = consensus.SoloNetParams
+	rd := rand.New(rand.NewSource(20260923))
+	ctx := context.Background()
+	voteKey := make([]byte, 64)
+	for i := range voteKey {
+		voteKey[i] = 7
+	}
+	foreign, _ := vmutil.P2WPKHProgram(make([]byte, 20))
+	for _, mn := range [][2]int{{1, 2}, {2, 3}, {2, 4}, {3, 4}} {
+		m, n := mn[0], mn[1]
+		db := dbm.NewMemDB()
+		am := account.VerifNewManager(db, func() uint64 { return 100 })
+		keeper := account.VerifKeeperOf(am)
+		prv := map[chainkd.XPub]chainkd.XPrv{}
+		var xpubs []chainkd.XPub
+		for i := 0; i < n; i++ {
+			xprv, xpub, err := chainkd.NewXKeys(rd)
+			if err != nil {
+				panic(err)
+			}
+			prv[xpub] = xprv
+			xpubs = append(xpubs, xpub)
+		}
+		acc, err := am.Create(xpubs, m, fmt.Sprintf("ms%d%d", m, n), signers.BIP0044)
+		if err != nil {
+			panic(err)
+		}
+		cp, err := am.CreateAddress(acc.ID, false)
+		if err != nil {
+			panic(err)
+		}
+		// legacy program for records without an address
+		path, _ := signers.Path(acc.Signer, signers.AccountKeySpace, false, 7)
+		// the program a SignatureWitness is made for: the m-of-n check is over the hash of the
+		// signature program handed in as last argument, which is then run as a predicate
+		lb := vmutil.NewBuilder()
+		lb.AddOp(vm.OP_DUP).AddOp(vm.OP_TOALTSTACK).AddOp(vm.OP_SHA3)
+		for _, pk := range chainkd.XPubKeys(chainkd.DeriveXPubs(acc.XPubs, path)) {
+			lb.AddData(pk)
+		}
+		lb.AddUint64(uint64(m)).AddUint64(uint64(n)).AddOp(vm.OP_CHECKMULTISIG).AddOp(vm.OP_VERIFY)
+		lb.AddOp(vm.OP_FROMALTSTACK).AddUint64(0).AddOp(vm.OP_CHECKPREDICATE)
+		legacyProg, err := lb.Build()
+		if err != nil {
+			panic(err)
+		}
+		serial := uint64(0)
+		for _, kind := range []string{"spend", "veto", "legacy"} {
+			for _, nIn := range []int{1, 3} {
+				for _, subset := range c27subsets(n, m) {
+					for _, order := range c27perms(subset) {
+						label := fmt.Sprintf("%d-of-%d account, %s, %d input(s), signers (key positions) %v in order %v", m, n, kind, nIn, subset, order)
+						// fresh UTXO records for this trial
+						var amounts []uint64
+						var keys [][]byte
+						for i := 0; i < nIn; i++ {
+							serial++
+							u := &account.UTXO{SourceID: bc.Hash{V0: serial, V1: 99}, SourcePos: 0, AssetID: *consensus.BTMAssetID,
+								Amount: uint64(900000000 - 100000000*i), ControlProgram: cp.ControlProgram, AccountID: acc.ID, Address: cp.Address,
+								ControlProgramIndex: cp.KeyIndex, Change: cp.Change}
+							switch kind {
+							case "veto":
+								u.Vote = voteKey
+								in := types.NewVetoInput(nil, u.SourceID, u.AssetID, u.Amount, u.SourcePos, u.ControlProgram, u.Vote, nil)
+								u.OutputID, _ = in.SpentOutputID()
+							case "legacy":
+								u.Address, u.ControlProgram, u.ControlProgramIndex, u.Change = "", legacyProg, 7, false
+								fallthrough
+							default:
+								in := types.NewSpendInput(nil, u.SourceID, u.AssetID, u.Amount, u.SourcePos, u.ControlProgram, nil)
+								u.OutputID, _ = in.SpentOutputID()
+							}
+							data, _ := json.Marshal(u)
+							key := account.StandardUTXOKey(u.OutputID)
+							db.Set(key, data)
+							keys = append(keys, key)
+							amounts = append(amounts, u.Amount)
+						}
+						var total uint64
+						for _, a := range amounts {
+							total += a
+						}
+						want := total - amounts[len(amounts)-1] + 1 // needs every input
+						if nIn == 1 {
+							want = total / 2
+						}
+						fee := uint64(30000000)
+						var act txbuilder.Action
+						if kind == "veto" {
+							act, err = am.DecodeVetoAction([]byte(fmt.Sprintf(`{"type":"veto","account_id":%q,"asset_id":%q,"amount":%d,"vote":"%x"}`, acc.ID, consensus.BTMAssetID.String(), want, voteKey)))
+						} else {
+							act, err = am.DecodeSpendAction([]byte(fmt.Sprintf(`{"type":"spend_account","account_id":%q,"asset_id":%q,"amount":%d}`, acc.ID, consensus.BTMAssetID.String(), want)))
+						}
+						if err != nil {
+							panic(err)
+						}
+						pay, err2 := txbuilder.DecodeControlProgramAction([]byte(fmt.Sprintf(`{"type":"control_program","control_program":"%x","asset_id":%q,"amount":%d}`, foreign, consensus.BTMAssetID.String(), want-fee)))
+						if err2 != nil {
+							panic(err2)
+						}
+						tpl, err := txbuilder.Build(ctx, nil, []txbuilder.Action{act, pay}, time.Unix(1000, 0), 0)
+						cleanup := func() {
+							for _, r := range keeper.Reservations() {
+								keeper.Cancel(r.ID)
+							}
+							for _, k := range keys {
+								db.Delete(k)
+							}
+						}
+						if err != nil {
+							capFail(c, "m-of-n account: Build of a fundable request fails", label+": "+err.Error())
+							cleanup()
+							continue
+						}
+						tx := tpl.Transaction
+						validate := func() error {
+							data, _ := tx.TxData.MarshalText()
+							tx.TxData.SerializedSize = uint64(len(data) / 2)
+							tx.Tx.SerializedSize = uint64(len(data) / 2)
+							blk := &bc.Block{BlockHeader: &bc.BlockHeader{Version: 1, Height: 101, Timestamp: 1}}
+							_, verr := validation.ValidateTx(tx.Tx, blk, func(prog []byte) ([]byte, error) { return nil, nil })
+							return verr
+						}
+						for step, pos := range order {
+							if txbuilder.SignProgress(tpl) {
+								capFail(c, "m-of-n account: SignProgress true with fewer than m signers", fmt.Sprintf("%s: after %d signer(s)", label, step))
+							}
+							holder := acc.XPubs[pos]
+							only := func(_ context.Context, xpub chainkd.XPub, path [][]byte, data [32]byte, _ string) ([]byte, error) {
+								if xpub != holder {
+									return nil, fmt.Errorf("this signer does not hold that key")
+								}
+								return prv[xpub].Derive(path).Sign(data[:]), nil
+							}
+							if err := txbuilder.Sign(ctx, tpl, "", only); err != nil {
+								capFail(c, "m-of-n account: txbuilder.Sign fails", label+": "+err.Error())
+							}
+						}
+						progress := txbuilder.SignProgress(tpl)
+						verr := validate()
+						switch {
+						case !progress:
+							capFail(c, "m-of-n account: m distinct key holders signed but SignProgress is false", label)
+						case verr != nil:
+							capFail(c, "m-of-n account: m key holders signed (SignProgress true) but ValidateTx rejects the transaction", label+": "+verr.Error())
+						}
+						// witness: exactly m signatures per input (64-byte arguments)
+						for i, in := range tx.Inputs {
+							nsig := 0
+							for _, a := range in.Arguments() {
+								if len(a) == 64 {
+									nsig++
+								}
+							}
+							if nsig != m {
+								capFail(c, "m-of-n account: input witness does not carry exactly m signatures", fmt.Sprintf("%s: input %d carries %d", label, i, nsig))
+							}
+						}
+						// pays as requested
+						var in, out uint64
+						for _, x := range tx.Inputs {
+							in += x.Amount()
+						}
+						paid := false
+						for _, o := range tx.Outputs {
+							out += o.Amount
+							if string(o.ControlProgram) == string(foreign) && o.Amount == want-fee {
+								paid = true
+							}
+						}
+						if !paid || in-out != fee || len(tx.Inputs) != nIn {
+							capFail(c, "m-of-n account: built transaction does not pay as requested", fmt.Sprintf("%s: in %d out %d inputs %d", label, in, out, len(tx.Inputs)))
+						}
+						c.Count(fmt.Sprintf("multisig/%d-of-%d/%s", m, n, kind))
+						cleanup()
+					}
+				}
+			}
+		}
+	}
+}
+
 func runC27(c *Ctx) {
 	c.Rule = "per case 6-15 wallet UTXOs (BTM and two other assets, distinct amounts, two accounts: single key and 2-of-3, some unconfirmed, some both confirmed and unconfirmed, some immature) and 2-5 build requests, each a shuffled list of 1-3 control_address/control_program/retire actions and the spend_account actions that fund them (sometimes split over two spend actions / two accounts, sometimes off by a few units, sometimes amount 0); successful templates of balanced requests are signed and validated; a case is distinct by its op line"
 	env := newC27env()
@@ -788,6 +1014,7 @@ func runC27(c *Ctx) {
 	for i := 0; i < c.N; i++ {
 		c27gen(c, s)
 	}
+	c27multisig(c)
 	chains := 60
 	if c.Tier == "thorough" {
 		chains = 1500
